@@ -232,6 +232,11 @@ func (g *Gen) havocHs(st *State, written []string, all bool) {
 		}
 	}
 	st.hs = nw
+	for _, r := range st.refs {
+		if rg, ok := g.refRange[r]; ok {
+			g.assume(st, elemRangeFact(nw, r, rg))
+		}
+	}
 }
 
 func (g *Gen) havocField(st *State, key string) {
